@@ -9,8 +9,29 @@ import traceback
 from . import env
 
 
+_COV = [None]
+
+
 def _init():
     env.install()
+    covdir = os.environ.get('VERIF_COVERAGE')
+    if covdir:
+        # reach guard (tools/reach.py): line coverage of /repo/src/ZODB in
+        # every worker, saved when the worker exits
+        import coverage
+        cov = coverage.Coverage(data_file=os.path.join(covdir, 'cov'),
+                                data_suffix=True, source=['/repo/src/ZODB'])
+        cov.start()
+        _COV[0] = cov
+        import multiprocessing.util as mpu
+        mpu.Finalize(None, _save_cov, exitpriority=10)
+
+
+def _save_cov():
+    if _COV[0] is not None:
+        _COV[0].stop()
+        _COV[0].save()
+        _COV[0] = None
 
 
 def _call(task):
@@ -34,9 +55,15 @@ def run_tasks(tasks, workers, rep, seed=0, chunksize=1):
             _merge(rep, r)
         return
     ctx = mp.get_context('fork')
-    with ctx.Pool(min(workers, len(tasks)), initializer=_init) as pool:
+    pool = ctx.Pool(min(workers, len(tasks)), initializer=_init)
+    try:
         for r in pool.imap_unordered(_call, tasks, chunksize):
             _merge(rep, r)
+        pool.close()        # workers exit normally (finalizers run)
+        pool.join()
+    except BaseException:
+        pool.terminate()
+        raise
 
 
 def _merge(rep, r):
